@@ -1153,7 +1153,7 @@ func (c *Compiler) compileFunc(node *ast.Func) error {
 		case *ast.Float:
 			value = expr.Value()
 		case *ast.Nil:
-			value = nil
+			value = NilDefault{}
 		default:
 			line := node.Token().StartPosition.Line + 1
 			return fmt.Errorf("compile error: unsupported default value (got %s, line %d)", expr, line)
